@@ -104,6 +104,9 @@ pub fn judge(st: &mut Stats, rows: &Rows, cols: usize, companion: &Rows, ccols: 
     let r = rows.len();
     let m = to_mat(rows, cols);
     let rank = brute_rank(rows);
+    if elim_rank(rows) != rank {
+        panic!("MACHINERY: elimination-based reference rank disagrees with the brute-force rank");
+    }
     let space = row_space(rows);
     let shape = format!("{}x{}", r, cols);
     for full in [false, true] {
@@ -249,6 +252,125 @@ pub fn judge(st: &mut Stats, rows: &Rows, cols: usize, companion: &Rows, ccols: 
     }
 }
 
+/// independent elimination on bit rows (used where row-space enumeration is infeasible; validated against the
+/// brute-force rank on every small matrix the check enumerates)
+fn elim_rank(rows: &[u32]) -> usize {
+    let mut rows = rows.to_vec();
+    let mut rank = 0;
+    for bit in 0..32 {
+        if let Some(p) = (rank..rows.len()).find(|&r| (rows[r] >> bit) & 1 == 1) {
+            rows.swap(rank, p);
+            for r in 0..rows.len() {
+                if r != rank && (rows[r] >> bit) & 1 == 1 {
+                    rows[r] ^= rows[rank];
+                }
+            }
+            rank += 1;
+        }
+    }
+    rank
+}
+
+/// large matrices (up to 24x24): same judgements with elimination-based oracles
+pub fn judge_big(st: &mut Stats, rows: &Rows, cols: usize) {
+    st.inc("cases");
+    let r = rows.len();
+    let m = to_mat(rows, cols);
+    let rank = elim_rank(rows);
+    for full in [false, true] {
+        for bs in 1..=cols {
+            st.inc("evaluations");
+            let mut m1 = m.clone();
+            let mut g = Mat2::id(r);
+            let got = match guarded(|| m1.gauss_x(full, bs, &mut g)) {
+                Err(p) => {
+                    st.violation(Violation { sig: format!("gauss_x|panic|big|{}", last_panic_site()), detail: p, witness: wit(rows, cols, "gauss_x", full, bs) });
+                    continue;
+                }
+                Ok(k) => k,
+            };
+            let (e, _) = from_mat(&m1);
+            let (gr, _) = from_mat(&g);
+            let cls = format!("big|full={}|bs{}", full, if bs == cols { "=cols".to_string() } else if bs == 1 { "=1".into() } else if cols % bs == 0 { "=divisor".into() } else { "=mid".into() });
+            let mut both = rows.clone();
+            both.extend(e.iter());
+            if got != rank {
+                st.violation(Violation { sig: format!("gauss_x|wrong-rank|{}", cls), detail: format!("returned {}, true rank {}", got, rank), witness: wit(rows, cols, "gauss_x", full, bs) });
+            } else if let Err(why) = echelon(&e, full) {
+                st.violation(Violation { sig: format!("gauss_x|not-{}echelon|{}", if full { "reduced-" } else { "" }, cls), detail: why, witness: wit(rows, cols, "gauss_x", full, bs) });
+            } else if elim_rank(&e) != rank || elim_rank(&both) != rank {
+                st.violation(Violation { sig: format!("gauss_x|row-space-changed|{}", cls), detail: "the result does not span the same row space".into(), witness: wit(rows, cols, "gauss_x", full, bs) });
+            } else if mul(&gr, rows) != e || elim_rank(&gr) != r {
+                st.violation(Violation { sig: format!("gauss_x|proxy-identity-mismatch|{}", cls), detail: "recorded operations do not reproduce the result (or are not invertible)".into(), witness: wit(rows, cols, "gauss_x", full, bs) });
+            } else {
+                st.inc("nontrivial");
+            }
+        }
+    }
+    st.inc("evaluations");
+    match guarded(|| (m.rank(), m.inverse(), m.nullspace())) {
+        Err(p) => st.violation(Violation { sig: format!("big|panic|{}", last_panic_site()), detail: p, witness: wit(rows, cols, "inverse", true, 3) }),
+        Ok((rk, inv, ns)) => {
+            let id: Rows = (0..r).map(|k| 1u32 << k).collect();
+            let invertible = r == cols && rank == r;
+            let vecs: Vec<u32> = ns.iter().map(|v| from_mat(v).0.first().copied().unwrap_or(0)).collect();
+            if rk != rank {
+                st.violation(Violation { sig: "rank|wrong|big".into(), detail: format!("{} vs {}", rk, rank), witness: wit(rows, cols, "rank", false, 0) });
+            } else if inv.is_some() != invertible || inv.as_ref().map(|i| { let (ir, _) = from_mat(i); mul(&ir, rows) != id || mul(rows, &ir) != id }).unwrap_or(false) {
+                st.violation(Violation { sig: "inverse|wrong|big".into(), detail: format!("invertible = {}, inverse() is_some = {}", invertible, inv.is_some()), witness: wit(rows, cols, "inverse", true, 3) });
+            } else if vecs.len() != cols - rank || elim_rank(&vecs) != vecs.len() || !vecs.iter().all(|&v| rows.iter().all(|&rr| (rr & v).count_ones() % 2 == 0)) {
+                st.violation(Violation { sig: "nullspace|wrong|big".into(), detail: format!("{} vectors, cols - rank = {}", vecs.len(), cols - rank), witness: wit(rows, cols, "nullspace", true, 3) });
+            }
+        }
+    }
+}
+
+/// structured families up to 24x24 (a fixed, enumerated list — no sampling)
+fn big_family(n: usize) -> Vec<Rows> {
+    let mut out: Vec<Rows> = vec![];
+    let mask = if n == 32 { u32::MAX } else { (1u32 << n) - 1 };
+    // rotations of the identity, the reversal, and each with one or two extra row additions
+    for rot in 0..n {
+        let p: Rows = (0..n).map(|i| 1u32 << ((i + rot) % n)).collect();
+        out.push(p.clone());
+        for a in [0usize, n / 2, n - 1] {
+            for b in [1usize, n / 3, n - 2] {
+                if a != b {
+                    let mut q = p.clone();
+                    q[a] ^= q[b];
+                    out.push(q.clone());
+                    q[b] ^= q[(a + b) % n];
+                    out.push(q);
+                }
+            }
+        }
+    }
+    out.push((0..n).map(|i| 1u32 << (n - 1 - i)).collect());
+    // triangular, band and checker patterns
+    out.push((0..n).map(|i| (mask >> i) << i & mask).collect());
+    out.push((0..n).map(|i| mask >> (n - 1 - i)).collect());
+    for w in 1..=4usize {
+        out.push((0..n).map(|i| (((1u32 << w) - 1) << i) & mask).collect());
+        out.push((0..n).map(|i| ((((1u32 << w) - 1) << i) | 1) & mask).collect());
+    }
+    out.push((0..n).map(|i| if i % 2 == 0 { 0x55555555 & mask } else { 0xAAAAAAAA & mask }).collect());
+    // block diagonal: every 3x3 matrix repeated along the diagonal (colliding chunks at block size 3 and its multiples)
+    if n % 3 == 0 {
+        for b in 0..512u32 {
+            let blk = [b & 7, (b >> 3) & 7, (b >> 6) & 7];
+            out.push((0..n).map(|i| blk[i % 3] << (3 * (i / 3))).collect());
+            // the same pattern repeated across ALL column blocks (identical chunks everywhere)
+            out.push((0..n).map(|i| { let mut r = 0u32; for k in 0..n / 3 { r |= blk[i % 3] << (3 * k); } r & if i % 2 == 0 { mask } else { mask >> 3 } }).collect());
+        }
+    }
+    // rank-deficient: duplicated and zero rows
+    let mut d: Rows = (0..n).map(|i| 1u32 << i).collect();
+    d[n - 1] = d[0];
+    d[n / 2] = 0;
+    out.push(d);
+    out
+}
+
 fn decode(idx: u64, r: usize, c: usize) -> Rows {
     (0..r).map(|i| ((idx >> (i * c)) & ((1 << c) - 1)) as u32).collect()
 }
@@ -290,6 +412,7 @@ pub fn run(rep: &mut Report) {
         });
         rep.absorb(&format!("all {}x{}", r, c), &format!("all 2^{} matrices of shape {}x{}, every block size 1..{}, both modes", r * c, r, c, c), true, None, t0, stats);
     }
+    run_big(rep, quick);
     // 5x5 in thorough: all matrices (33.5 M)
     if !quick {
         let t0 = Instant::now();
@@ -320,12 +443,29 @@ pub fn run(rep: &mut Report) {
     }
 }
 
+fn run_big(rep: &mut Report, quick: bool) {
+    for n in if quick { vec![12usize] } else { vec![12, 18, 24] } {
+        let t0 = Instant::now();
+        let fam = big_family(n);
+        let stats = crate::sweep(&fam, |st, i, rows| {
+            watch_begin(i as u64, 99);
+            judge_big(st, rows, n);
+            watch_end();
+        });
+        rep.absorb(&format!("structured {}x{}", n, n), &format!("{} structured {}x{} matrices (rotated identities with extra row additions, triangular, band, checker, block-diagonal and all-blocks copies of every 3x3 matrix, rank-deficient), every block size 1..{}, both modes; elimination-based oracles validated against brute force on every small matrix", fam.len(), n, n, n), true, None, t0, stats);
+    }
+}
+
 pub fn replay(w: &Value) -> Option<Violation> {
     let rows: Rows = w["rows"].as_array()?.iter().map(|x| x.as_u64().unwrap() as u32).collect();
     let cols = w["cols"].as_u64()? as usize;
     let comp: Rows = (0..rows.len()).map(|i| (i as u32 * 3 + 1) & 3).collect();
     let mut st = Stats::default();
-    judge(&mut st, &rows, cols, &comp, 2);
+    if rows.len() > 8 {
+        judge_big(&mut st, &rows, cols);
+    } else {
+        judge(&mut st, &rows, cols, &comp, 2);
+    }
     println!("{}", to_mat(&rows, cols));
     let what = w["what"].as_str().unwrap_or("");
     st.viols.retain(|k, _| k.starts_with(what));
